@@ -103,7 +103,9 @@ func (interp *Interpreter) run(n *node, cf *frame) {
 	if cf == nil {
 		f = interp.frame
 	} else {
-		f = newFrame(cf, len(n.types), interp.runid())
+		// The run id is the one set by Execute at the start of the evaluation: a
+		// cancellation stops the pending entry points as well.
+		f = newFrame(cf, len(n.types), cf.runid())
 	}
 	interp.mutex.RLock()
 	c := reflect.ValueOf(interp.done)
